@@ -34,6 +34,10 @@ package car
 //@   loop[0] decreases lim(cr.br) - pos(cr.br)
 
 //@ func NewCarReaderWithOptions
+//@   let ch, herr := call[ReadHeader#0]
+//@   ensures only_version_1 [C02,C09]: err == nil ==> herr == nil && ch.Version == 1 && result0 != nil
+//@   ensures header_error_propagates [C02,C09]: herr != nil ==> err == herr && result0 == nil
+//@   ensures other_versions_rejected [C09]: herr == nil && ch.Version != 1 ==> err != nil && result0 == nil
 //@   call[Pool.Get#0] assume pool_holds_only_bufio_readers: typeis(result, "*bufio.Reader")
 
 //@ func (*selectiveCarTraverser).loader
@@ -99,3 +103,25 @@ package car
 //@     call[util.LdWrite#0] assert section_is_cid_then_data [C01,C15]: ref(arg0) == ref(w) && len(arg1) == 2 && ref(arg1[1]) == ref(block.Data)
 //@     call[dynamic#0] assert user_callback_gets_the_same_block [C15]: arg0 == block && werr == nil
 //@   end
+
+// Root-module reader construction and the walker's per-node step (C01, C02, C09, C15).
+
+//@ func (*carWriter).enumGetLinks
+//@   let nd, gerr := call[NodeGetter.Get#0]
+//@   let werr := call[carWriter.writeNode#0]
+//@   call[NodeGetter.Get#0] assert fetches_the_visited_cid [C01,C15]: arg2 == c
+//@   call[carWriter.writeNode#0] assert writes_the_fetched_node [C01,C15]: ref(arg0) == ref(cw) && ref(arg2) == ref(nd) && gerr == nil
+//@   call[dynamic#0] assert links_of_the_written_node [C01,C15]: ref(arg0) == ref(nd) && werr == nil
+//@   ensures write_error_stops_the_walk [C16]: gerr == nil && werr != nil ==> err == werr && len(result0) == 0
+
+//@ func NewCarReader
+//@   let cr, oerr := call[NewCarReaderWithOptions#0]
+//@   call[NewCarReaderWithOptions#0] assert same_stream [C02]: ref(arg0) == ref(r) && len(arg1) == 1
+//@   ensures delegates [C02]: result0 == cr && err == oerr
+
+//@ func LoadCar
+//@   let cr, nerr := call[NewCarReader#0]
+//@   call[NewCarReader#0] assert same_stream [C02]: ref(arg0) == ref(r)
+//@   call[loadCarFast#0] assert same_reader_and_store [C02]: arg0 == ctx && ref(arg2) == ref(cr)
+//@   call[loadCarSlow#0] assert same_reader_and_store [C02]: arg0 == ctx && ref(arg1) == ref(s) && ref(arg2) == ref(cr)
+//@   ensures open_error_propagates [C02]: nerr != nil ==> err == nerr && result0 == nil
